@@ -169,6 +169,27 @@ PROPS = {
         assumptions=['codec model: Dec(cs, Enc(cs, s)) == s for encodable s'],
         trusted_base=[],
     ),
+    'C14': dict(
+        level='exploration',
+        text='from_dict(m.dict()) == m is PROVED for all 18 message types and all meta types with symbolic attribute values '
+             '(object model only, no strings). The textual clauses - from_str(str(m)) == m, eval(repr(x)) == x for messages, meta '
+             'messages, tracks and files, parse_string raising only ValueError, parse_string_stream reporting bad lines and '
+             'carrying on - are bounded stand-ins on the real code: Python string formatting, str.split/int()/float() parsing and '
+             'eval() are outside the verifier\'s encoding (no string-library model was built), so this property is claimed as '
+             'exploration, not proof.',
+        note='bounded: boundary grid of every attribute of every type x 11 times; grammar-generated and random lines; tracks of '
+             'length 0..4, files of 0..3 tracks. The proved part (dict round trip) is listed under coverage.obligations.',
+        explanation='mixed: dict round trip by discharged obligations; text/repr clauses by bounded enumeration on the real code',
+        clauses=[
+            ['from_dict(m.dict()) == m (Message and MetaMessage)', 'P'],
+            ['from_str(str(m)) == m', 'B'],
+            ['eval(repr(x)) == x for messages, meta messages, tracks, files', 'B'],
+            ['parse_string raises only ValueError / returns a valid message', 'B'],
+            ['parse_string_stream: (None, "line N: ...") for bad lines, continues, skips blanks and comments', 'B'],
+        ],
+        assumptions=[],
+        trusted_base=[],
+    ),
     'C02': dict(
         level='proof',
         text='Message.from_bytes / decode_message are verified against the MIDI 1.0 well-formedness predicate for integer '
@@ -189,5 +210,5 @@ PROPS = {
 }
 
 NOT_APPLICABLE = {pid: _PENDING for pid in
-                  ['C07', 'C08', 'C10', 'C11', 'C12', 'C13', 'C14',
+                  ['C07', 'C08', 'C10', 'C11', 'C12', 'C13',
                    'C16', 'C18', 'C19', 'C20']}
